@@ -38,9 +38,12 @@ structure Variant where
   asymLe : Bool
   /-- fixes/C16-pal-kepler-jacobian.diff: Newton update with the untransposed inverse Jacobian -/
   palNewton : Bool
+  /-- fixes/C11-reject-a-zero.diff: `a >= 0.` / `a <= 0.` in the bound/unbound tests, so that
+      a = 0 is rejected (errors 3 / 4) -/
+  aStrict : Bool
 deriving DecidableEq, Repr
 
-def Variant.unfixed : Variant := ⟨false, false, false, false⟩
+def Variant.unfixed : Variant := ⟨false, false, false, false, false⟩
 
 /-! ## exact IEEE `fmod` on `Float` (Lean has none): integer arithmetic on mantissas -/
 
@@ -179,13 +182,13 @@ def checkTail (asymLe : Bool) (tiny pm e cf : K) : Option OErr :=
   else none
 
 /-- the rejection tests of `reb_particle_from_orbit_err` in source order; `cf = cos(f)` -/
-def fromOrbitCheck (asymLe : Bool) (tiny pm a e cf : K) : Option OErr :=
+def fromOrbitCheck (v : Variant) (tiny pm a e cf : K) : Option OErr :=
   if eqB e one then some .radial
   else if lt e zero then some .negE
   else if lt one e then
-    (if lt zero a then some .boundE else checkTail asymLe tiny pm e cf)
+    (if (if v.aStrict then le zero a else lt zero a) then some .boundE else checkTail v.asymLe tiny pm e cf)
   else
-    (if lt a zero then some .unboundE else checkTail asymLe tiny pm e cf)
+    (if (if v.aStrict then le a zero else lt a zero) then some .unboundE else checkTail v.asymLe tiny pm e cf)
 end check
 
 /-- values of the eight `cos`/`sin` calls -/
@@ -224,7 +227,7 @@ end core
 
 def fromOrbit {K : Type} [OrbitK K] (v : Variant) (G : K) (pr : Part K) (m a e inc Omega omega f : K) :
     Except OErr (Part K) :=
-  match fromOrbitCheck v.asymLe OrbitK.tiny pr.m a e (cos f) with
+  match fromOrbitCheck v OrbitK.tiny pr.m a e (cos f) with
   | some err => .error err
   | none =>
     let v0 := sqrt (v0sq G pr.m m a e)
@@ -269,6 +272,9 @@ variable {K : Type} [OrbitK K]
 
 /-- `acos2(num, denom, disambiguator)` -/
 def acos2 (num denom dis : K) : K :=
+  -- 0/0: the C code computes NaN, fails both comparisons below and returns 0.  Made explicit so
+  -- that an exact-arithmetic instance (where 0/0 = 0) does not silently take the `acos` branch.
+  if eqB denom zero && eqB num zero then zero else
   let cosine := num / denom
   if lt (neg one) cosine && lt cosine one then
     let val := acos cosine
@@ -316,19 +322,75 @@ def invariants (G : K) (p pr : Part K) : Inv K :=
   let h := sqrt (hx * hx + hy * hy + hz * hz)
   { mu, dx, dy, dz, dvx, dvy, dvz, d, vsq, v, a, rhill, hx, hy, hz, h, vdiffsq := vsq - vcircsq }
 
-/-- error 1: primary.m ≤ TINY; error 2: d ≤ TINY.  `t0` = `p.sim->t` (0 without sim). -/
+/-- radial velocity and eccentricity vector `(vr, ex, ey, ez)` (tools.c:1077-1083) -/
+def evec (i : Inv K) : K × K × K × K :=
+  let vr := (i.dx * i.dvx + i.dy * i.dvy + i.dz * i.dvz) / i.d
+  let rvr := i.d * vr
+  let muinv := one / i.mu
+  (vr, muinv * (i.vdiffsq * i.dx - rvr * i.dvx), muinv * (i.vdiffsq * i.dy - rvr * i.dvy),
+   muinv * (i.vdiffsq * i.dz - rvr * i.dvz))
+
+/-- mean anomaly before range reduction (tools.c:1101-1111) -/
+def meanAnomaly (v : Variant) (e d a vr : K) : K :=
+  if lt e one then
+    let ea := acos2 (one - d / a) e vr
+    ea - e * sin ea
+  else
+    let coshea := (one - d / a) / e
+    let ea0 := if v.acoshClamp then (if lt one coshea then acosh coshea else zero) else acosh coshea
+    let ea := if lt vr zero then neg ea0 else ea0
+    e * sinh ea - ea
+
+/-- the five angles that depend on the near-planar / near-circular switches, before range
+    reduction (tools.c:1115-1167) -/
+structure Ang (K : Type) where
+  omega : K
+  pomega : K
+  f : K
+  theta : K
+  l : K
+
+def readerAngles (inc Omega e M d dx dy dz ex ey ez nx ny nn : K) : Ang K :=
+  let pi : K := OrbitK.pi
+  let prograde := lt inc (pi / two)
+  let eBig := lt c1em8 e
+  if lt inc c1em8 || lt (pi - c1em8) inc then
+    let theta := acos2 dx d dy
+    let pomega := acos2 ex e ey
+    if prograde then
+      let omega := pomega - Omega
+      let f := theta - pomega
+      let l := if eBig then pomega + M else theta - two * e * sin f
+      ⟨omega, pomega, f, theta, l⟩
+    else
+      let omega := Omega - pomega
+      let f := pomega - theta
+      let l := if eBig then pomega - M else theta + two * e * sin f
+      ⟨omega, pomega, f, theta, l⟩
+  else
+    let wpf := acos2 (nx * dx + ny * dy) (nn * d) dz
+    let omega := acos2 (nx * ex + ny * ey) (nn * e) ez
+    if prograde then
+      let pomega := Omega + omega
+      let f := wpf - omega
+      let theta := Omega + wpf
+      let l := if eBig then pomega + M else theta - two * e * sin f
+      ⟨omega, pomega, f, theta, l⟩
+    else
+      let pomega := Omega - omega
+      let f := wpf - omega
+      let theta := Omega - wpf
+      let l := if eBig then pomega - M else theta + two * e * sin f
+      ⟨omega, pomega, f, theta, l⟩
+
 def orbitBody (v : Variant) (i : Inv K) (t0 : K) : Orb K :=
   let mu := i.mu
   let dx := i.dx; let dy := i.dy; let dz := i.dz
   let dvx := i.dvx; let dvy := i.dvy; let dvz := i.dvz
   let d := i.d; let a := i.a; let h := i.h
   let hx := i.hx; let hy := i.hy; let hz := i.hz
-  let vr := (dx * dvx + dy * dvy + dz * dvz) / d
-  let rvr := d * vr
-  let muinv := one / mu
-  let ex := muinv * (i.vdiffsq * dx - rvr * dvx)
-  let ey := muinv * (i.vdiffsq * dy - rvr * dvy)
-  let ez := muinv * (i.vdiffsq * dz - rvr * dvz)
+  let ev := evec i
+  let vr := ev.1; let ex := ev.2.1; let ey := ev.2.2.1; let ez := ev.2.2.2
   let e := sqrt (ex * ex + ey * ey + ez * ez)
   let n := a / fabs a * sqrt (fabs (mu / (a * a * a)))
   let P := two * OrbitK.pi / n
@@ -337,59 +399,20 @@ def orbitBody (v : Variant) (i : Inv K) (t0 : K) : Orb K :=
   let ny := hx
   let nn := sqrt (nx * nx + ny * ny)
   let Omega := acos2 nx nn ny
-  let M : K :=
-    if lt e one then
-      let ea := acos2 (one - d / a) e vr
-      ea - e * sin ea
-    else
-      let coshea := (one - d / a) / e
-      let ea0 := if v.acoshClamp then (if lt one coshea then acosh coshea else zero) else acosh coshea
-      let ea := if lt vr zero then neg ea0 else ea0
-      e * sinh ea - ea
-  let pi : K := OrbitK.pi
-  let prograde := lt inc (pi / two)
-  let eBig := lt c1em8 e
-  -- (omega, pomega, f, theta, l)
-  let (omega, pomega, f, theta, l) : K × K × K × K × K :=
-    if lt inc c1em8 || lt (pi - c1em8) inc then
-      let theta := acos2 dx d dy
-      let pomega := acos2 ex e ey
-      if prograde then
-        let omega := pomega - Omega
-        let f := theta - pomega
-        let l := if eBig then pomega + M else theta - two * e * sin f
-        (omega, pomega, f, theta, l)
-      else
-        let omega := Omega - pomega
-        let f := pomega - theta
-        let l := if eBig then pomega - M else theta + two * e * sin f
-        (omega, pomega, f, theta, l)
-    else
-      let wpf := acos2 (nx * dx + ny * dy) (nn * d) dz
-      let omega := acos2 (nx * ex + ny * ey) (nn * e) ez
-      if prograde then
-        let pomega := Omega + omega
-        let f := wpf - omega
-        let theta := Omega + wpf
-        let l := if eBig then pomega + M else theta - two * e * sin f
-        (omega, pomega, f, theta, l)
-      else
-        let pomega := Omega - omega
-        let f := wpf - omega
-        let theta := Omega - wpf
-        let l := if eBig then pomega - M else theta + two * e * sin f
-        (omega, pomega, f, theta, l)
+  let M := meanAnomaly v e d a vr
+  let A := readerAngles inc Omega e M d dx dy dz ex ey ez nx ny nn
   let T := t0 - M / fabs n
   let fac := sqrt (two / (one + hz / h)) / h
   { d := d, v := i.v, h := h, P := P, n := n, a := a, e := e, inc := inc, Omega := Omega,
-        omega := mod2pi omega, pomega := pomega, f := mod2pi f, M := mod2pi M, l := mod2pi l,
-        theta := mod2pi theta, T := T, rhill := i.rhill,
+        omega := mod2pi A.omega, pomega := A.pomega, f := mod2pi A.f, M := mod2pi M, l := mod2pi A.l,
+        theta := mod2pi A.theta, T := T, rhill := i.rhill,
         pal_ix := (neg fac) * hy,
         pal_iy := fac * hx,
         pal_k := h / mu * (dvy - dvz / (h + hz) * hy) - one / d * (dx - dz / (h + hz) * hx),
         pal_h := h / mu * ((neg dvx) + dvz / (h + hz) * hx) - one / d * (dy - dz / (h + hz) * hy),
         hx := hx, hy := hy, hz := hz, ex := ex, ey := ey, ez := ez }
 
+/-- error 1: primary.m ≤ TINY; error 2: d ≤ TINY.  `t0` = `p.sim->t` (0 without sim). -/
 def orbitFromParticle (v : Variant) (G : K) (p pr : Part K) (t0 : K) : Except Nat (Orb K) :=
   if le pr.m OrbitK.tiny then .error 1 else
   let i := invariants G p pr
@@ -436,16 +459,12 @@ def solveKeplerPal (v : Variant) (h k lambda : K) : K × K :=
     let E := M_to_E v e M
     (e * sin E, e * cos E)
 
-def fromPal (v : Variant) (G : K) (pr : Part K) (m a lambda k h ix iy : K) : Part K :=
-  let (p, q) := solveKeplerPal v h k lambda
-  let slp := sin (lambda + p)
-  let clp := cos (lambda + p)
-  let l := one - sqrt (one - h * h - k * k)
+/-- the straight-line part of `reb_particle_from_pal` given `(p, q)`, `slp = sin(lambda+p)`,
+    `clp = cos(lambda+p)`, `l = 1 - sqrt(1-h²-k²)`, `iz = sqrt|4-ix²-iy²|`, `an = sqrt(G(m+M)/a)` -/
+def fromPalCore {K : Type} [Scalar K] (pr : Part K) (m a k h ix iy p q slp clp l iz an : K) : Part K :=
   let xi := a * (clp + p / (two - l) * h - k)
   let eta := a * (slp - p / (two - l) * k - h)
-  let iz := sqrt (fabs (four - ix * ix - iy * iy))
   let W := eta * ix - xi * iy
-  let an := sqrt (G * (m + pr.m) / a)
   let dxi := an / (one - q) * ((neg slp) + q / (two - l) * h)
   let deta := an / (one - q) * (clp - q / (two - l) * k)
   let dW := deta * ix - dxi * iy
@@ -456,6 +475,15 @@ def fromPal (v : Variant) (G : K) (pr : Part K) (m a lambda k h ix iy : K) : Par
     vx := pr.vx + dxi + half * iy * dW
     vy := pr.vy + deta - half * ix * dW
     vz := pr.vz + half * iz * dW }
+
+def fromPal (v : Variant) (G : K) (pr : Part K) (m a lambda k h ix iy : K) : Part K :=
+  let (p, q) := solveKeplerPal v h k lambda
+  let slp := sin (lambda + p)
+  let clp := cos (lambda + p)
+  let l := one - sqrt (one - h * h - k * k)
+  let iz := sqrt (fabs (four - ix * ix - iy * iy))
+  let an := sqrt (G * (m + pr.m) / a)
+  fromPalCore pr m a k h ix iy p q slp clp l iz an
 
 end pal
 
